@@ -34,6 +34,7 @@ class Style:
     ce: str = "#}"
     wc: float = 0.0  # probability of a whitespace-control hyphen (needs an rng)
     tight: float = 0.0  # probability of no padding inside delimiters
+    line_comment_from_cs: bool = False  # C11: print liquid-tag line comments with the marker derived from cs
 
 
 def print_nodes(nodes: list, st: Style, rng: random.Random | None = None) -> str:
@@ -87,14 +88,16 @@ def _print(n, st: Style, rng, out: list[str]) -> None:
         out.append(f"{st.cs} {n[1]} {st.ce}")
     elif k == "liquid":
         lines: list[str] = []
+        # inside a liquid tag the line-comment marker is the environment's comment start string without '{' ('#' by default)
+        marker = (st.cs.replace("{", "") or "#") if st.line_comment_from_cs else "#"
         for c in n[1]:
-            _print_line(c, lines, 1)
+            _print_line(c, lines, 1, marker)
         out.append(f"{st.ts}{_h(st, rng)} liquid\n" + "\n".join(lines) + f"\n{_h(st, rng)}{st.te}")
     else:  # pragma: no cover
         raise ValueError(k)
 
 
-def _print_line(n, lines: list[str], ind: int) -> None:
+def _print_line(n, lines: list[str], ind: int, marker: str = "#") -> None:
     pad = "  " * ind
     k = n[0]
     if k == "out":
@@ -108,13 +111,13 @@ def _print_line(n, lines: list[str], ind: int) -> None:
             if i:
                 lines.append(f"{pad}{iname} {iexpr}".rstrip())
             for c in body:
-                _print_line(c, lines, ind + 1)
+                _print_line(c, lines, ind + 1, marker)
         lines.append(f"{pad}end{name}")
     elif k == "inline":
-        lines.append(f"{pad}# {n[1]}")
+        lines.append(f"{pad}{marker} {n[1]}")
     elif k == "liquid":
         for c in n[1]:
-            _print_line(c, lines, ind)
+            _print_line(c, lines, ind, marker)
     else:  # text etc. cannot appear inside a liquid tag
         raise ValueError(f"{k} inside liquid tag")
 
